@@ -58,7 +58,10 @@ def runOp (args impl : List String) : Option (String × String) := do
   let usersOverlap : Bool := allUsers && decide (n "maxflight" > maxUsers)
   let spec : String :=
     if prop = "C01" ∨ prop = "C16" then
-      if n "inflight" ≠ 0 ∨ blocked then "ok"
+      -- iterations still in flight at the return excuse a difference between result and metric only when the completion
+      -- timeout has run out; a run that returned earlier than that took its totals too soon
+      if abandonedEarly ∧ ¬blocked then "FAIL totals-taken-while-iterations-were-in-flight-before-the-completion-timeout"
+      else if n "inflight" ≠ 0 ∨ blocked then "ok"
       else if res.take 2 ≠ truth then "FAIL result-counts-differ-from-executed-iterations"
       else if met.take 3 ≠ res then "FAIL metric-samples-differ-from-result"
       else if met.getD 3 0 ≠ 1 then "FAIL setup-metric-not-exactly-one-sample"
